@@ -607,6 +607,7 @@ func TestVerif_C18_Resync(t *testing.T) {
 		emit(vObj{"a": "Reset", "beh": s.ID, "admch": admch, "admro": admro})
 
 		var cur map[string]vC18Row
+		var accepted []vC18Step // the writes the database under test accepted, in order
 		scratchDone := false
 		for _, st := range s.Steps {
 			switch st.A {
@@ -616,9 +617,15 @@ func TestVerif_C18_Resync(t *testing.T) {
 				emit(vObj{"a": "SetFn", "f": st.F, "tab": vC18Tab(st.Tab)})
 			case "Write":
 				ok := R.write(st.D, vInt(st.B), st.Cls, st.Del)
+				if ok {
+					accepted = append(accepted, st)
+				}
 				emit(vObj{"a": "Write", "d": st.D, "b": vInt(st.B), "cls": st.Cls, "del": st.Del, "ok": ok})
 			case "Conflict":
 				ok := R.conflict(st.D, st.Cls, st.Hi)
+				if ok {
+					accepted = append(accepted, st)
+				}
 				emit(vObj{"a": "Conflict", "d": st.D, "cls": st.Cls, "hi": st.Hi, "ok": ok})
 			case "Request":
 				o := R.request(st.U)
@@ -637,17 +644,12 @@ func TestVerif_C18_Resync(t *testing.T) {
 				scratchDone = true
 				S.setFn(cur)
 				S.begin(s, "y")
-				okd := map[string]bool{}
-				for _, d := range vC18Docs {
-					okd[d] = true
-				}
-				for _, w := range s.Steps {
-					if w.A == "Scratch" {
-						break
-					}
-					if (w.A != "Write" && w.A != "Conflict") || !okd[w.D] {
+				okd, rejd := map[string]bool{}, map[string]bool{}
+				for _, w := range accepted {
+					if rejd[w.D] {
 						continue
 					}
+					okd[w.D] = true
 					var ok bool
 					if w.A == "Write" {
 						ok = S.write(w.D, vInt(w.B), w.Cls, w.Del)
@@ -655,7 +657,7 @@ func TestVerif_C18_Resync(t *testing.T) {
 						ok = S.conflict(w.D, w.Cls, w.Hi)
 					}
 					if !ok { // rejected by the new function: this document cannot exist in the from-scratch database
-						okd[w.D] = false
+						okd[w.D], rejd[w.D] = false, true
 						if len(S.docs[w.D].chain[1]) > 0 {
 							_ = S.col.Purge(S.ctx, S.real(w.D), false)
 							S.docs[w.D] = &vC18Leafs{}
